@@ -57,6 +57,9 @@ func (transport) RoundTrip(req *http.Request) (*http.Response, error) {
 			h.Set("Content-Type", e.ContentType)
 		}
 		h.Set("Content-Length", strconv.Itoa(len(e.Body)))
+		if e.Location != "" {
+			h.Set("Location", e.Location)
+		}
 		w.done(seq, "http", url, 0, nil, flt, fi, false)
 		return &http.Response{
 			Status: strconv.Itoa(st) + " " + http.StatusText(st), StatusCode: st,
